@@ -2402,8 +2402,14 @@ func (s *Store) ensureCheckTxn(tx WriteTxn, idx uint64, preserveIndexes bool, hc
 
 		// Copy in the service name and tags
 		svc := service.(*structs.ServiceNode)
-		hc.ServiceName = svc.ServiceName
-		hc.ServiceTags = svc.ServiceTags
+		// When restoring from a snapshot (preserveIndexes) the check is put
+		// back exactly as it was persisted. Re-deriving the denormalized
+		// service fields here would hand clients a different check than the
+		// one they could read before the snapshot was taken.
+		if !preserveIndexes || hc.ServiceName == "" {
+			hc.ServiceName = svc.ServiceName
+			hc.ServiceTags = svc.ServiceTags
+		}
 		if existing != nil && existing.(*structs.HealthCheck).IsSame(hc) {
 			modified = false
 		} else {
